@@ -18,7 +18,7 @@ FLOATS = [0.0, -0.0, 1.5, -1.5, -0.5, 0.1, 2.655, 17.577, 1e-05, 1.5e-07, 1e+16,
 
 
 def mk_str(rng, sep, esc):
-    alpha = ['a', 'b', 'Z', ' ', ' ', '"', esc, esc, "'", '0', '-', '.', 'é', '€', '\U0001F600'] + list(sep) + [sep, sep]
+    alpha = ['a', 'b', 'Z', ' ', ' ', '"', esc, esc, "'", '0', '-', '.', '\u00e9', '\u20ac', '\U0001F600', '\ufeff', '\ufeff', '\u200b'] + list(sep) + [sep, sep]
     n = rng.choice([0, 1, 1, 2, 3, 5, 9])
     return ''.join(rng.choice(alpha) for _ in range(n))
 
@@ -48,7 +48,7 @@ class C18(Check):
     stubs = ['simulated disk / file objects handed in through the documented open_obj seam (short reads)', 'transport re-cutting the character stream',
              'final subscriber']
     assumptions = ['strings contain neither \\n nor \\r', 'the header line is written (header=True) and the matching schema, separator and escape char are used for loading']
-    probe_names = ('path:mem', 'path:file', 'short_reads', 'file>64KiB', 'negative_float', 'str_ends_with_escape', 'sep_in_str', 'quote_in_str',
+    probe_names = ('zwnbsp_in_str', 'path:mem', 'path:file', 'short_reads', 'file>64KiB', 'negative_float', 'str_ends_with_escape', 'sep_in_str', 'quote_in_str',
                    'multi_char_sep', 'blank_edges', 'empty_str', 'cut_inside_line')
     quick_cap = 150000
 
@@ -180,6 +180,8 @@ class C18(Check):
             p['blank_edges'] += 1
         if any(s == '' for s in strs):
             p['empty_str'] += 1
+        if any('\ufeff' in s for s in strs):
+            p['zwnbsp_in_str'] += 1
         return out
 
     def signature(self, case, v):
